@@ -94,6 +94,7 @@ def run(ctx):
     r3_multiplicity(ctx, cmpf, where, arms)
     r4_index_invariant(ctx)
     r5_order(ctx, where, arms)
+    r6_cache_invalidation(ctx)
 
 
 def _arms(fn):
@@ -259,7 +260,60 @@ def r5_order(ctx, where, arms):
     ctx.ob("C17.R5", RES, "Table.where", guard[0] if guard else where, "bisect is used only for index columns, never for match/callables", ok, stmt="bisect guard")
 
 
+def r6_cache_invalidation(ctx):
+    """The (lo,hi) ranges of equal index values are cached in an attribute filled from _calc_lohis().  Any method that adds rows must
+    drop that cache on every path before it returns, otherwise indexed queries keep answering from the old row ranges."""
+    from ..cfg import CFG
+    from ..util import escape_path
+    ctx.rule("C17.R6", "every path from a statement that adds rows to self._data to a return of the same method passes a reset (or emptiness test) of "
+                       "the cached index ranges (the attribute filled from _calc_lohis())")
+    cls = ctx.model.cls(RES, "Table")
+    caches = set()
+    for fn in cls.methods.values():
+        for x in ast.walk(fn):
+            if isinstance(x, ast.Assign) and "_calc_lohis()" in unparse(x.value):
+                caches |= {t.attr for t in x.targets if is_self_attr(t)}
+    ctx.floor("C17.R6", "attributes caching _calc_lohis()", len(caches), 1)
+    n = 0
+    for mname, fn in sorted(cls.methods.items()):
+        if mname in ("__init__", "index"):
+            continue
+        g = CFG(fn)
+        adders = []
+        for nd in g.nodes:
+            if nd.kind != "stmt" or nd.ast is None:
+                continue
+            for c in walk_shallow(nd.ast):
+                if isinstance(c, ast.Call) and call_tail(c) in ("extend", "append", "insert") and "self._data" in unparse(c.func):
+                    adders.append(nd)
+            if isinstance(nd.ast, ast.Assign) and any(unparse(t).startswith("self._data[") for t in nd.ast.targets):
+                adders.append(nd)
+        if not adders:
+            continue
+        via = set()
+        for nd in g.nodes:
+            if nd.ast is None:
+                continue
+            if nd.kind == "test" and any(is_self_attr(a) and a.attr in caches for a in ast.walk(nd.ast)):
+                via.add(nd.id)
+            if nd.kind == "stmt" and isinstance(nd.ast, ast.Assign) and any(is_self_attr(t) and t.attr in caches for t in nd.ast.targets):
+                via.add(nd.id)
+        seen = set()
+        for nd in adders:
+            if id(nd.ast) in seen:
+                continue
+            seen.add(id(nd.ast))
+            n += 1
+            ctx.touch(RES, f"Table.{mname}")
+            p_ = escape_path(g, nd.id, via, {g.exit_return}, skip_labels=("exc", "abandon"))
+            ctx.ob("C17.R6", RES, f"Table.{mname}", nd.ast, "rows added here invalidate the cached index ranges before the method returns", p_ is None and bool(via),
+                   detail=None if p_ is None else {"path_without_reset": g.describe_path(p_)})
+    ctx.floor("C17.R6", "row-adding statements in Table methods", n, 3)
+
+
 CONTROLS = [
+    ("row-list inserts keep the cached ranges", RES, M.chain(M.delete_stmt("Table.insert", M.text_has("if self._lohis: self._lohis = {}")),
+                                                          M.insert_after("Table.insert", M.text_has("self._columns += tuple(sorted(new_cols))"), "if self._lohis: self._lohis = {}")), "C17.R6"),
     ("bisect fallback skips first row", RES, M.replace_expr("my_bisect_left", "bisect_left(c, a, l, h)", "bisect_left(c, a, l + 1, h)"), "C17.R2"),
     ("swap bisects in <=", RES, M.replace_expr("Table._compare", "[(lo, my_bisect_right(col, arg, lo, hi))]", "[(lo, my_bisect_left(col, arg, lo, hi))]"), "C17.R2"),
     ("scan > becomes >=", RES, M.replace_expr("Table._compare", "c > arg", "c >= arg"), "C17.R2"),
